@@ -164,4 +164,31 @@ Proof.
   replace ((- zlen p <=? i)%Z && (i <? zlen p)%Z) with false; [reflexivity|].
   symmetry. apply andb_false_iff. destruct Hi; [left; apply Z.leb_gt|right; apply Z.ltb_ge]; lia.
 Qed.
+
+(* squeeze(axis=[...]) / squeeze(axis=slice): the axes that stay are those that are not selected
+   or have more than one point, in their original order *)
+Fixpoint positions (i : Z) (p : part) : list (Z * axis T) :=
+  match p with [] => [] | ax :: p' => (i, ax) :: positions (i + 1) p' end.
+Lemma keep_axes_filter (rng : list Z) (i : Z) (p : part) :
+  keep_axes rng i p =
+  map snd (filter (fun ja => negb (zmem (fst ja) rng) || nondegen (snd ja)) (positions i p)).
+Proof.
+  revert i; induction p as [|ax p IH]; intros i; [reflexivity|].
+  cbn [keep_axes positions filter fst snd]. rewrite IH.
+  destruct (negb (zmem i rng) || nondegen ax); reflexivity.
+Qed.
+Lemma squeeze_list (p : part) (l : list Z) : (forall j, In j l -> (0 <= j < zlen p)%Z) ->
+  squeeze p (AxList l) =
+  Ok (map snd (filter (fun ja => negb (zmem (fst ja) l) || nondegen (snd ja)) (positions 0 p))).
+Proof.
+  intros Hin. unfold squeeze, axsel_range.
+  assert (E : fancy_idx (zlen p) l = Ok l).
+  { induction l as [|j l IH]; [reflexivity|]. unfold fancy_idx in *. cbn [mapM].
+    pose proof (Hin j (or_introl eq_refl)) as Hj.
+    replace ((- zlen p <=? j)%Z && (j <? zlen p)%Z) with true
+      by (symmetry; apply andb_true_iff; split; [apply Z.leb_le|apply Z.ltb_lt]; lia).
+    replace (j <? 0)%Z with false by (symmetry; apply Z.ltb_ge; lia). cbn [bind].
+    rewrite IH by (intros; apply Hin; right; assumption). reflexivity. }
+  rewrite E. cbn [bind]. f_equal. apply keep_axes_filter.
+Qed.
 End Axes.
